@@ -37,10 +37,22 @@ Oracle (clauses)
   history-dependence
                    command or files for P after other tasks != for P on a
                    fresh launcher
+  well-formed      the command (or a file it names) cannot be read at all
   first-accepting  find_launcher returns something else than the first
                    launcher (in configured order) whose can_launch accepts
 
 A refusal (`can_launch` False or `get_launch_cmds` raises) is an outcome.
+For every configured order the launcher which find_launcher returns also
+generates the command for the task *as that configuration presents it*
+(resource sets of ContinuousJsrun if JSRUN is among the launch methods); what
+fails there but not for the method on its own is reported with the order in
+the trigger.
+
+Keys: clause | <Class>.get_launch_cmds | <METHOD{flavours}>/<trigger>, where
+the trigger is the smallest conjunction of placement attributes (`features`)
+which all failing placements of the variant share and no passing one has;
+variants failing the same clause at the same site with the same trigger share
+one key.
 
 Trusted base: the readers (launcher CLI semantics from the comments in the
 code and the tools' documentation); see `Reader`.
@@ -383,9 +395,10 @@ def features(pl):
     if len(counts) > 42                   : f.add('>42-nodes')
     if pl.get('rs')                       : f.add(pl['rs'])
     first = min(counts, key=lambda name: NODE_POS[name])
-    if len(ranks) > 1 and min(r[1][0] for r in ranks if r[0] == first) \
-                          >= CPN // len(ranks):
-        f.add('lowest-core>=cores_per_node/ranks')
+    c     = pl['c']
+    if min(r[1][0] for r in ranks if r[0] == first) // c \
+       >= max(1, CPN // (len(ranks) * c)):
+        f.add('lowest-core-block>=cores_per_node/task-cores')
     return f
 
 
@@ -395,29 +408,35 @@ FEATURE_ORDER = ['multi-rank', 'multi-node', 'ranks-share-node',
                  'cores-differ-per-node', 'gpus', 'first-node-remote',
                  'nodes-not-in-list-order', 'ranks-interleaved', '>42-ranks',
                  '>42-nodes', 'shared-gpu', 'split-gpu',
-                 'lowest-core>=cores_per_node/ranks']
+                 'lowest-core-block>=cores_per_node/task-cores']
 
 
-def minimal_trigger(failing, passing):
+def minimal_trigger(failing, passing, clean=None):
     '''
     smallest conjunction of features which all failing cases have and no
-    passing case has (greedy, deterministic); 'any' if every case fails
+    passing case has (greedy, deterministic); 'any' if every case fails.
+    `passing`: cases which do not fail this clause; if those cannot be told
+    apart (another clause fails for the same reason), `clean`: cases without
+    any complaint.
     '''
     if not failing:
         return 'none'
     common = set.intersection(*[set(f) for f in failing])
     keep   = [f for f in FEATURE_ORDER if f in common]
 
-    def separates(fs):
-        return not any(set(fs) <= p for p in passing)
+    def separates(fs, ref):
+        return not any(set(fs) <= p for p in ref)
 
-    if not separates(keep):
+    ref = passing
+    if not separates(keep, ref) and clean is not None:
+        ref = clean
+    if not separates(keep, ref):
         # the common features do not explain it: name the simplest case
         first = [f for f in FEATURE_ORDER if f in failing[0]]
         return 'e.g.' + ('+'.join(first) or 'single-rank')
     for f in list(reversed(keep)):
         trial = [x for x in keep if x != f]
-        if separates(trial):
+        if separates(trial, ref):
             keep = trial
     return '+'.join(keep) or 'any'
 
@@ -664,6 +683,10 @@ class Reading(object):
             if k in ('pins', 'gpins'):
                 val = [[n, sorted(s)] for n, s in val]
             d[k] = val
+        for k in ('first_node', 'offset', 'tpn', 'rs', 'per_rs', 'c_rs',
+                  'g_rs', 'rs_host', 'dvm'):
+            if getattr(self, k, None) is not None:
+                d[k] = getattr(self, k)
         return d
 
 
@@ -1360,9 +1383,6 @@ def judge(v, pl, obs, sbox, lm=None):
     return cls, bad, r
 
 
-SITE = {'well-formed': 'get_launch_cmds'}
-
-
 def site_of(v, clause):
     return '%s.get_launch_cmds' % LM_CLASS[v['name']]
 
@@ -1417,6 +1437,7 @@ def single_pass(world, v, part, verbose=False):
     fresh   = dict()
     records = collections.defaultdict(lambda: [list(), None])
     clean   = list()        # features of the cases without any complaint
+    cases   = list()        # (features, failed clauses) of every command
     n_cmd   = 0
     for i, pl in enumerate(pls):
         lm   = world.launcher(v)
@@ -1428,8 +1449,10 @@ def single_pass(world, v, part, verbose=False):
         part.outcome((v['id'], shape(pl), cls))
         n_cmd += 1 if obs[0] == 'command' else 0
         feats  = features(pl)
-        if obs[0] == 'command' and not bad:
-            clean.append(feats)
+        if obs[0] == 'command':
+            cases.append((feats, set(c for c, _ in bad)))
+            if not bad:
+                clean.append(feats)
         for clause in sorted(set(c for c, _ in bad)):
             rec = records[clause]
             rec[0].append(feats)
@@ -1438,7 +1461,8 @@ def single_pass(world, v, part, verbose=False):
                 rec[1] = (pl, text, obs)
     for clause, (failing, first) in sorted(records.items()):
         pl, text, obs = first
-        trig = minimal_trigger(failing, clean)
+        trig = minimal_trigger(failing, [f for f, cs in cases
+                                         if clause not in cs], clean)
         part.violation('%s|%s|%s/%s' % (clause, site_of(v, clause), v['id'],
                                         trig),
                        {'what'     : text,
@@ -1464,20 +1488,20 @@ def history_indices(pls, quick):
     '''which placements serve as "earlier tasks"'''
     if not quick:
         return list(range(len(pls)))
-    # quick: every pattern once per node choice, cycling through all (cores,
-    # gpus, index style) combinations; everything large or special
+    # quick: every pattern once, cycling through all (cores, gpus, index
+    # style) combinations and the node choices; everything large or special
     combos = [(c, g, st) for c in (1, 2) for g in (0, 1, 2)
                          for st in ('low', 'scattered')]
-    seen = dict()
-    out  = list()
+    wanted = set()
+    for i, pattern in enumerate(PATTERNS):
+        c, g, st = combos[(5 * i) % len(combos)]
+        seqs     = NODE_SEQS[len(pattern)]
+        wanted.add(make_placement(pattern, seqs[i % len(seqs)], c, g,
+                                  st)['key'])
+    out = list()
     for i, pl in enumerate(pls):
-        if pl.get('big') or pl.get('rs') or pl['order'] != 'grouped':
-            out.append(i)
-            continue
-        key = (tuple(pl['pattern']), pl['ranks'][0][0])
-        if key not in seen and \
-           (pl['c'], pl['g'], pl['style']) == combos[len(seen) % len(combos)]:
-            seen[key] = i
+        if pl.get('big') or pl.get('rs') or pl['order'] != 'grouped' \
+           or pl['key'] in wanted:
             out.append(i)
     return out
 
@@ -1632,7 +1656,7 @@ def bare_rm(world, order):
     return rm
 
 
-def find_pass(world, part, order, arg):
+def find_pass(world, part, order, arg, only=None):
     order = tuple(order)
     rm    = bare_rm(world, order)
     made  = list(rm._launchers.values())
@@ -1646,10 +1670,20 @@ def find_pass(world, part, order, arg):
 
     old = any(VAR_BY_ID[ORDER_VARIANT[name]].get('slots') == 'old'
               for name in order)
+    # the slot structure is a property of the configuration: JSRUN among the
+    # launch methods switches the agent to ContinuousJsrun (resource sets)
+    pls = list(_placements)
+    if old:
+        pls += [x for x in extra_placements({'reader': 'jsrun'})
+                  if x.get('rs') == 'shared-gpu']
+    if only is not None:
+        pls = [only]
     n = 0
-    for pl in _placements:
+    records = collections.defaultdict(lambda: [list(), list(), None])
+    for pl in pls:
         for kind in TASK_KINDS:
-            v0   = {'slots': 'old'} if old else {}
+            v0   = {'slots': 'old', 'id': 'cfg-old'} if old \
+                   else {'id': 'cfg-new'}
             task = make_task(dict(v0, lm_info={}), pl, world.sbox, **kind)
             expect = None
             for name, (v, lm) in refs.items():
@@ -1664,40 +1698,92 @@ def find_pass(world, part, order, arg):
                 launcher, lname, err = None, None, e
             n += 1
             kcls = 'mpi=%s,exe=%s' % (kind['mpi'], bool(kind['exe']))
-            trig = 'order=%s/%s/%s' % ('>'.join(order), kcls,
-                   'multi-rank' if len(pl['ranks']) > 1 else
-                   'single-rank-%s' % ('local' if pl['ranks'][0][0] ==
-                                       'localhost' else 'remote'))
+            names = list(order)
+            if   lname == expect      : rel = 'same'
+            elif lname is None        : rel = 'none-although-one-accepts'
+            elif expect is None       : rel = 'one-although-none-accepts'
+            elif lname not in names   : rel = 'not-configured'
+            elif names.index(lname) > names.index(expect):
+                rel = 'later-than-first-accepting'
+            else                      : rel = 'earlier-but-not-accepting'
+            trig = rel
             replay = {'kind': 'find', 'order': list(order), 'placement': pl,
                       'task_kind': kind}
             if err is not None:
                 part.violation('first-accepting|ResourceManager.find_launcher'
-                               '|%s/raises' % trig,
-                               {'what': '%r' % err}, replay)
+                               '|raises-%s' % type(err).__name__,
+                               {'what': '%r' % err, 'order': list(order),
+                                'placement': pl['ranks'][:6]}, replay)
                 continue
             if lname != expect:
                 part.violation('first-accepting|ResourceManager.find_launcher'
                                '|%s' % trig,
                                {'what': 'returned %s, first launcher in %s '
-                                        'which accepts is %s'
-                                        % (lname, list(order), expect),
+                                        'which accepts is %s (task: %s)'
+                                        % (lname, list(order), expect, kcls),
                                 'placement': pl['ranks'][:6]}, replay)
             elif lname is not None and (launcher is not rm._launchers[lname]
                  or type(launcher).__name__ != LM_CLASS[lname]
                  or launcher.name != lname):
                 part.violation('first-accepting|ResourceManager.find_launcher'
-                               '|%s/wrong-object' % trig,
+                               '|wrong-object',
                                {'what': 'name %s but object %r (%s)'
                                         % (lname, launcher,
                                            getattr(launcher, 'name', None))},
                                replay)
             elif task != before:
                 part.violation('task-untouched|ResourceManager.find_launcher'
-                               '|%s' % trig,
+                               '|any',
                                {'what': 'the task was changed by the search'},
                                replay)
             part.outcome(('find', order, kcls, len(pl['ranks']),
                           pl['ranks'][0][0] == 'localhost', lname))
+
+            # the launcher which was found generates the command, for the
+            # task as this configuration presents it
+            if kind is not TASK_KINDS[0] or lname is None or lname != expect:
+                continue
+            v = VAR_BY_ID[ORDER_VARIANT[lname]]
+            world.clean(world.sbox)
+            obs = drive(launcher, task, world.sbox)
+            cls, bad, r = judge(v, pl, obs, world.sbox, launcher)
+            part.cover(configured_commands=1)
+            feats = features(pl)
+            new   = set(c for c, _ in bad)
+            if new:
+                # only what the method does not show on its own (that is
+                # reported by the per-variant pass)
+                world.clean(world.sbox)
+                obs2 = drive(world.launcher(v), make_task(v, pl, world.sbox),
+                             world.sbox)
+                new -= set(c for c, _ in judge(v, pl, obs2, world.sbox,
+                                               launcher)[1])
+            for clause in CLAUSES:
+                rec = records[(lname, clause)]
+                if clause in new:
+                    rec[0].append(feats)
+                    if rec[2] is None:
+                        rec[2] = (pl, '; '.join(t for c, t in bad
+                                                if c == clause), obs)
+                elif obs[0] == 'command':
+                    rec[1].append(feats)
+    for (lname, clause), (failing, passing, first) in sorted(records.items()):
+        if not failing:
+            continue
+        pl, text, obs = first
+        v = VAR_BY_ID[ORDER_VARIANT[lname]]
+        part.violation('%s|%s|%s(order=%s)/%s'
+                       % (clause, site_of(v, clause), lname, '>'.join(order),
+                          minimal_trigger(failing, passing)),
+                       {'what'     : text + (' -- the configuration hands '
+                                     'resource sets (ContinuousJsrun) to %s'
+                                     % lname if old else ''),
+                        'order'    : list(order),
+                        'placement': pl['ranks'][:6],
+                        'command'  : obs[2],
+                        'failing'  : len(failing)},
+                       {'kind': 'find', 'order': list(order), 'placement': pl,
+                        'task_kind': TASK_KINDS[0]})
     for lm in made:
         retire(lm)
     part.cover(evaluations=n, find_launcher=n)
@@ -1707,8 +1793,9 @@ def find_pass(world, part, order, arg):
 #
 def merge_flavours(results):
     '''
-    one key per root cause: if every flavour of a launch method fails a
-    clause with the same trigger, the flavour is dropped from the key
+    one key per root cause: variants which fail the same clause at the same
+    site with the same trigger share a key; a launch method is named without
+    flavours if all its flavours fail
     '''
     groups = collections.OrderedDict()
     others = list()
@@ -1720,20 +1807,26 @@ def merge_flavours(results):
                 keep.append((key, detail, replay))
                 continue
             clause, site, name, tag, trig = m.groups()
-            groups.setdefault((clause, site, name, trig), list()).append(
-                    (tag, detail, replay))
+            groups.setdefault((clause, site, trig), list()).append(
+                    (name, tag, detail, replay))
         res['violations'] = keep
         others.append(res)
     merged = list()
-    for (clause, site, name, trig), items in groups.items():
-        tags = sorted(set(t for t, _, _ in items))
-        if set(tags) == set(TAGS_OF[name]) or len(TAGS_OF[name]) == 1:
-            label = name
-        else:
-            label = '%s{%s}' % (name, ','.join(tags))
-        tag, detail, replay = items[0]
-        merged.append(('%s|%s|%s/%s' % (clause, site, label, trig), detail,
-                       replay))
+    for (clause, site, trig), items in groups.items():
+        items.sort(key=lambda x: [v['id'] for v in VARIANTS]
+                                 .index('%s{%s}' % (x[0], x[1])))
+        labels = list()
+        for name in sorted(set(x[0] for x in items)):
+            tags = sorted(set(x[1] for x in items if x[0] == name))
+            if set(tags) == set(TAGS_OF[name]):
+                labels.append(name)
+            else:
+                labels.append('%s{%s}' % (name, ','.join(tags)))
+        name, tag, detail, replay = items[0]
+        detail = dict(detail, variants=['%s{%s}' % (x[0], x[1])
+                                        for x in items])
+        merged.append(('%s|%s|%s/%s' % (clause, site, '+'.join(labels), trig),
+                       detail, replay))
     return others, merged
 
 
@@ -1757,13 +1850,13 @@ def run(ctx):
         size  = 8 if ctx.quick else 52
         for lo in range(0, len(hists), size):
             jobs.append(('pairs', v['id'], hists[lo:lo + size]))
-    n_trip = 0
+    n_rep = 0
     if not ctx.quick:
         for v in VARIANTS:
             pls   = placements_for(v)
             hq    = history_indices(pls, True)
             trips = [[a, b] for a in hq for b in hq]
-            n_trip = max(n_trip, len(trips))
+            n_rep = max(n_rep, len(hq))
             size  = 181
             for lo in range(0, len(trips), size):
                 jobs.append(('triples', v['id'], trips[lo:lo + size]))
@@ -1801,15 +1894,20 @@ def run(ctx):
                  'JSRUN); each alone on a new launcher, and as last task '
                  'after %s on one launcher object%s; find_launcher: every '
                  'launch method order of the shipped resource configs x all '
-                 'placements x 4 task kinds.  distinct = distinct (variant, '
-                 'placement shape, result class)'
+                 'placements x 4 task kinds (MPI flag, executable or not), '
+                 'and the command of the launcher found for the task as the '
+                 'configuration presents it (resource sets if JSRUN is '
+                 'configured).  distinct = distinct (variant, placement '
+                 'shape, result class)'
                  % (len(VARIANTS), n_pl,
-                    'each of %d representative earlier placements (one per '
-                    'pattern x cores x gpus class, all large/special ones)'
-                    % n_hist if ctx.quick else 'every other placement '
-                    '(all ordered pairs)',
-                    '' if ctx.quick else ', and after every ordered pair of '
-                    'the representative placements (triples)'))
+                    'each of %d representative earlier placements (every '
+                    'rank/node pattern once, cycling through all cores x '
+                    'gpus x index style combinations and node choices, plus '
+                    'all large, interleaved and shared-GPU ones)' % n_hist
+                    if ctx.quick else 'every other placement (all ordered '
+                    'pairs)',
+                    '' if ctx.quick else ', and as last of every ordered '
+                    'triple of the %d representative placements' % n_rep))
     if skipped:
         ctx.notes.append('orders with launch methods outside the anchors of '
                          'C09 are not run: %s' % [list(o) for o in skipped])
@@ -1829,7 +1927,8 @@ def run(ctx):
 #
 def replay(ctx, data):
 
-    global _placements, _scratch
+    global _placements, _scratch, _task_cache
+    _task_cache = None
     r = data['replay']
     _scratch    = ctx.scratch
     _placements = gen_placements()
@@ -1839,9 +1938,8 @@ def replay(ctx, data):
     try:
         if r['kind'] == 'find':
             pl = r['placement']
-            _placements = [pl]
             TASK_KINDS[:] = [r['task_kind']]
-            find_pass(world, part, tuple(r['order']), None)
+            find_pass(world, part, tuple(r['order']), None, only=pl)
             print('order     :', r['order'])
             print('placement :', pl['ranks'])
             print('task kind :', r['task_kind'])
